@@ -948,6 +948,12 @@ type c36Gate struct {
 	noFloatMax     bool // C36-float-max: no FLOAT value ±3.4028234e38 (the largest float32)
 	format         string // "" = SQL dump; csv | json | parquet: restrict to what the file format carries (c36FormatTypeOK / c36FormatValueOK)
 	restricted     int    // draws replaced because of a format restriction
+	// open findings of the file-format paths (each keeps exactly its shape out of the format cases)
+	noJSONExponent   bool // C36-json-import-exponent
+	noJSONLongText   bool // C36-json-export-long-text
+	noParquetNullDec bool // C36-parquet-null-decimal
+	noFileGenerated  bool // C36-file-generated-column
+	noParquetDotted  bool // C36-parquet-dotted-column
 	excluded       int
 }
 
@@ -998,9 +1004,14 @@ func c36GenTable(rt *rapid.T, label, name string, db *c36DB, g *c36Gate) c36Tabl
 		ncols = 2
 	}
 	cnames := c36Perm(rt, label+".cnames", c36ColNames, ncols)
-	if g.format != "" {
+	if g.format == "json" || (g.format == "parquet" && g.noParquetDotted) {
 		for i := range cnames {
-			cnames[i] = strings.ReplaceAll(cnames[i], ".", "_")
+			if strings.Contains(cnames[i], ".") {
+				if g.format == "parquet" {
+					g.excluded++
+				}
+				cnames[i] = strings.ReplaceAll(cnames[i], ".", "_")
+			}
 		}
 	}
 	if mode <= 2 {
@@ -1042,7 +1053,8 @@ func c36GenTable(rt *rapid.T, label, name string, db *c36DB, g *c36Gate) c36Tabl
 		}
 		col := c36Col{name: cnames[ci], typ: typ}
 		col.notNull = rapid.IntRange(0, 3).Draw(rt, cl+".notnull") == 0
-		if g.format == "parquet" && typ.family == "decimal" {
+		if g.format == "parquet" && typ.family == "decimal" && g.noParquetNullDec && !col.notNull {
+			g.excluded++
 			col.notNull = true
 		}
 		if len(typ.defs) > 0 && rapid.IntRange(0, 3).Draw(rt, cl+".hasdef") == 0 {
@@ -1065,7 +1077,11 @@ func c36GenTable(rt *rapid.T, label, name string, db *c36DB, g *c36Gate) c36Tabl
 	}
 	// a generated column over an int column
 	for ci, c := range t.cols {
-		if g.format == "" && c.typ.family == "int" && c.name != "pk" && rapid.IntRange(0, 4).Draw(rt, fmt.Sprintf("%s.gen%d", label, ci)) == 0 {
+		if c.typ.family == "int" && c.name != "pk" && rapid.IntRange(0, 4).Draw(rt, fmt.Sprintf("%s.gen%d", label, ci)) == 0 {
+			if g.format != "" && g.noFileGenerated {
+				g.excluded++
+				break
+			}
 			t.cols = append(t.cols, c36Col{name: "g_" + fmt.Sprint(ci), typ: c36IntType(c36IntSpecs[8]),
 				gen: "(" + c36QuoteIdent(c.name) + " % 7)", stored: rapid.Bool().Draw(rt, label+".stored")})
 			break
@@ -1231,7 +1247,7 @@ func c36GenRows(rt *rapid.T, label string, t *c36Table, g *c36Gate, anchor bool)
 			switch {
 			case anchor && ri == 0 && c.typ.hostile != nil:
 				row[ci] = c.typ.hostile(rt, vl)
-				for tries := 0; g.format != "" && !c36FormatValueOK(g.format, c.typ, row[ci]); tries++ {
+				for tries := 0; g.format != "" && !c36FormatValueOK(g, c.typ, row[ci]); tries++ {
 					g.restricted++
 					if tries > 8 {
 						row[ci] = c36FormatFallback(c.typ)
@@ -1248,7 +1264,7 @@ func c36GenRows(rt *rapid.T, label string, t *c36Table, g *c36Gate, anchor bool)
 				row[ci] = c36Val{lit: "DEFAULT", tags: []string{"default_used"}}
 			default:
 				v := c.typ.gen(rt, vl)
-				for tries := 0; g.format != "" && !c36FormatValueOK(g.format, c.typ, v); tries++ {
+				for tries := 0; g.format != "" && !c36FormatValueOK(g, c.typ, v); tries++ {
 					g.restricted++
 					if tries > 8 {
 						v = c36FormatFallback(c.typ)
@@ -1671,17 +1687,18 @@ var c36FormatRestrictions = map[string][]string{
 	},
 	"json": {
 		"JSON strings are Unicode text: no binary/varbinary/blob/bit/spatial columns (dolt writes invalid UTF-8 as U+FFFD, BLOB as base64 that the import does not decode)",
-		"JSON has one number type: FLOAT/DOUBLE values are restricted to those encoding/json writes without an exponent (1e-6 <= |x| < 1e21); the import (jstream) misreads exponents",
-		"a JSON column is embedded as a JSON value: SQL NULL and the JSON null literal, and a top-level JSON string and a text, are the same spelling - JSON columns hold objects/arrays without exponent numbers",
-		"character values longer than 2000 bytes are left out (dolt exports out-of-line text as its storage wrapper object)",
+		"while C36-json-import-exponent is open: FLOAT/DOUBLE values and numbers inside JSON columns are restricted to those encoding/json writes without an exponent (1e-6 <= |x| < 1e21)",
+		"a JSON column is embedded as a JSON value: SQL NULL and the JSON null literal, and a top-level JSON string and a text, are the same spelling - JSON columns hold objects/arrays",
+		"while C36-json-export-long-text is open: character values longer than 2000 bytes are left out",
+		"column names contain no '.'",
 	},
 	"parquet": {
-		"no BIT columns; DECIMAL columns are NOT NULL (dolt's parquet import panics on a NULL decimal)",
+		"no BIT columns; while C36-parquet-null-decimal is open: DECIMAL columns are NOT NULL",
 		"DECIMAL values have at most 15 significant digits (parquet/writer.go: 'the parquet-go library uses big.Float to write ... and loses precision for long decimals')",
-		"column names contain no '.' (the parquet import drops such a column)",
+		"while C36-parquet-dotted-column is open: column names contain no '.'",
 	},
 	"all": {
-		"no generated columns (file exports include the generated column and the import tries to write it)",
+		"while C36-file-generated-column is open: no generated columns",
 		"row values only: the table schema comes from the generator's CREATE TABLE (dolt table import -r), so SHOW CREATE TABLE / AUTO_INCREMENT counters / views / triggers are not compared",
 		"rows written with the DEFAULT keyword are left out",
 		"no foreign keys (`dolt table import -r` truncates the table, which dolt refuses for a referenced table)",
@@ -1708,9 +1725,15 @@ func c36FormatTypeOK(format string, t *c36Type) bool {
 	return true
 }
 
-func c36FormatValueOK(format string, t *c36Type, v c36Val) bool {
+func c36FormatValueOK(g *c36Gate, t *c36Type, v c36Val) bool {
 	has := func(tag string) bool { return c36HasTag(v.tags, tag) }
-	switch format {
+	excl := func(open bool) bool { // a shape kept out only while its finding is open
+		if open {
+			g.excluded++
+		}
+		return open
+	}
+	switch g.format {
 	case "csv":
 		if has("str_empty") || has("set_empty") || has("str_cr") || has("year_zero") {
 			return false
@@ -1723,7 +1746,13 @@ func c36FormatValueOK(format string, t *c36Type, v c36Val) bool {
 			return false
 		}
 	case "json":
-		if has("float_exponent") || has("float32_max") || has("str_long") || has("json_scalar_top") || has("json_exponent_number") || has("json_null_literal") {
+		if has("json_scalar_top") || has("json_null_literal") {
+			return false
+		}
+		if (has("float_exponent") || has("float32_max") || has("json_exponent_number")) && excl(g.noJSONExponent) {
+			return false
+		}
+		if has("str_long") && excl(g.noJSONLongText) {
 			return false
 		}
 	}
